@@ -373,6 +373,25 @@ func c16Check(ctx *Ctx, idx int, env *c16Env, cs ioCase) {
 		}
 		want := sp["result"]
 		canonSchemaLists(raw, want)
+		// inside the feature sets of C16_resolve_eq_spec_partial (asked of the Lean predicates, on the
+		// selection set the resolver receives) nothing may differ and no finding class applies
+		if sup, err := ctx.Driver.Call(env.driverArgs("c16.supported", isel, cs.Vars)); err == nil && sup["schema"] == true && sup["sel"] == true {
+			ctx.Rep.Count("fragment:supportedSchema∧supportedSel")
+			spi, err := ctx.Driver.Call(env.driverArgs("c16.spec", isel, cs.Vars))
+			if err != nil {
+				ctx.Rep.Fail(hx.Failure{Kind: "harness-error", Detail: err.Error(), Case: cs, Index: idx})
+				return
+			}
+			wantI := spi["result"]
+			canonSchemaLists(raw, wantI)
+			if hx.Canon(wantI) != hx.Canon(got) {
+				var ds []jdiff
+				jsonDiff(wantI, got, nil, &ds)
+				ctx.Rep.Fail(hx.Failure{Kind: "property-fails", Detail: "case inside supportedSchema ∧ supportedSel (where C16_resolve_eq_spec_partial proves the model equal to the specification on the selection set the resolver receives) but the gateway's answer differs",
+					Case: cs, Index: idx, Impl: map[string]interface{}{"differences": firstN(ds, 4)}})
+				return
+			}
+		}
 		c16ReportDiffs(ctx, idx, cs, raw, want, got, "HTTP answer vs Spec.select(Spec.introspect)")
 	}
 	ctx.Rep.Sample(map[string]interface{}{"schema_features": env.gs.Feat, "query": cs.Query, "variables": cs.Vars})
@@ -590,9 +609,9 @@ func runC16(ctx *Ctx) error {
 		c16Check(ctx, idx, env, ioCase{Kind: "witness", Query: w.query})
 		idx++
 	}
-	nSchemas, nOps, nTvt := 24, 22, 3
+	nSchemas, nOps, nTvt := 90, 30, 3
 	if ctx.Thorough() {
-		nSchemas, nOps, nTvt = 260, 40, 6
+		nSchemas, nOps, nTvt = 1200, 50, 6
 	}
 	var envs []*c16Env
 	for i, sdl := range igCorpus {
@@ -609,7 +628,7 @@ func runC16(ctx *Ctx) error {
 	for i := 0; i < nSchemas; i++ {
 		r := ctx.Rand.Fork()
 		prof := igWild
-		if i%3 == 0 {
+		if i%2 == 0 {
 			prof = igSafe
 		}
 		gs, err := igGenerate(r, prof)
@@ -635,7 +654,7 @@ func runC16(ctx *Ctx) error {
 		idx++
 		for k := 0; k < nOps; k++ {
 			r := ctx.Rand.Fork()
-			c16Check(ctx, idx, env, genOp(r, env.gs.Schema, k%3 != 0))
+			c16Check(ctx, idx, env, genOp(r, env.gs.Schema, k%2 != 0))
 			idx++
 		}
 		for k := 0; k < nTvt; k++ {
